@@ -163,9 +163,9 @@ Proof.
     exfalso. apply Hn. apply nib_byte_inj; assumption.
 Qed.
 
-Lemma unnib_nib a : Forall (fun b => b < 256) a -> unnib (nib a) = a.
+Lemma unnib_nib a : unnib (nib a) = a.
 Proof.
-  induction 1 as [|x a Hx _ IH]; cbn; [reflexivity|]. rewrite IH. f_equal.
+  induction a as [|x a IH]; cbn; [reflexivity|]. rewrite IH. f_equal.
   symmetry. apply nib_digits.
 Qed.
 
@@ -1190,3 +1190,35 @@ Proof.
 Qed.
 
 End Iterate.
+
+Section IterateExact.
+Context {V : Type}.
+
+Lemma ksorted_map_fst (l : amap V) :
+  ksorted l -> StronglySorted (fun a b => lex_ltb a b = true) (map fst l).
+Proof.
+  induction 1 as [|a l Hs IH Hall]; cbn; constructor; [assumption|].
+  rewrite Forall_forall in *. intros x Hx. apply in_map_iff in Hx as [y [<- Hy]]. exact (Hall y Hy).
+Qed.
+
+Lemma to_list_in_lookup (t : tree V) k v :
+  wfb t = true -> (In (k, v) (to_list t) <-> lookup k t = Some v).
+Proof.
+  intros Hwf. rewrite <- a_lookup_to_list by assumption. split.
+  - apply ksorted_in_lookup. apply ksorted_to_list. assumption.
+  - apply a_lookup_in.
+Qed.
+
+(** [iterate p t] yields exactly the entries whose key has prefix [p], in strictly
+    ascending lexicographic order. *)
+Theorem iterate_sorted_exact (t : tree V) p :
+  wfb t = true ->
+  StronglySorted (fun a b => lex_ltb a b = true) (map fst (iterate p t))
+  /\ forall k v, In (k, v) (iterate p t) <-> (is_prefix p k = true /\ lookup k t = Some v).
+Proof.
+  intros Hwf. rewrite iterate_spec by assumption. split.
+  - apply ksorted_map_fst. apply ksorted_filter. apply ksorted_to_list. assumption.
+  - intros k v. rewrite filter_In, to_list_in_lookup by assumption. cbn. tauto.
+Qed.
+
+End IterateExact.
